@@ -53,20 +53,43 @@ def check_no_write(ctx, rule="R1-caller-buffer-untouched"):
             ctx.violated(rule, f"{key}[{norm_stmt(sk.node)[:70]}]",
                          f"in-place {sk.kind} on {sk.target} ({sk.detail}) reaches {', '.join(hits)}, a view of the record that may be the caller's own array", where)
         ctx.holds(rule, key, f"{len(A2.sinks)} in-place sites examined, {m} reach the stored record", repo.where(key, f2))
-    # kernels: parameters written in place must be output buffers only
+    # kernels: which positions receive the stored record is read off the dispatchers (partial evaluation of both dispatch methods over orders x
+    # modes x backends); a kernel (with everything it calls: the effect summaries are transitive) must not write what it receives there.
+    # CUDA device kernels are launched on whatever the host wrapper hands them (numba copies host arrays back after the launch): they may
+    # only write their result slots.
+    from .dispatch import run_core, run_single, BACKENDS, setup as _dsetup
+    _dsetup()
+    recpos = {}
+    for order in (-1, 0, 1, 2):
+        for iscsd in (False, True):
+            for backend in BACKENDS:
+                for runner in (lambda: run_core(repo, order, iscsd, backend, True), lambda: run_single(repo, order, iscsd, backend, True, True)):
+                    try: R, _ = runner()
+                    except Unknown: continue
+                    for kkey, kargs, kkw, knode in R.kcalls:
+                        for i_, a_ in enumerate(kargs):
+                            if isinstance(a_, ArrParam) and a_.name in ("x1", "x2"): recpos.setdefault(kkey, set()).add(i_)
+    ctx.need("kernels reached by the dispatchers with the record in a known position", len(recpos), 12)
     k = 0
     for rel in ("speckit/core.py", "speckit/core_cuda.py"):
         for key, f3 in repo.functions_in(rel, lambda q, n_: q.startswith(("_stats_", "_gather", "_reduce", "_apply", "_goertzel", "_check"))):
             sm = E.summary(key); k += 1
             params = sm["params"]
-            bad = [params[i] for i in sorted(sm["writes_param"]) if params[i] not in ("xx", "yy", "xyr", "xyi")]
             ctx.analysed(key)
+            if key in recpos:
+                bad = [params[i] for i in sorted(sm["writes_param"]) if i in recpos[key]]
+                why = "the dispatcher passes a view of the stored record (and thereby possibly the caller's array) in that position"
+            elif key.endswith("_cuda_kernel"):
+                bad = [params[i] for i in sorted(sm["writes_param"]) if params[i] not in ("xx", "yy", "xyr", "xyi")]
+                why = "a device kernel may only write its result slots: numba copies host arguments back after the launch"
+            else:
+                bad = []          # helpers: covered through the transitive summaries of the kernels that call them
             if bad:
                 sk = sm["sinks"][params.index(bad[0])][0]
-                ctx.violated(rule, key, f"kernel writes its input parameter {bad[0]} in place ({sk.kind}: {sk.detail}); the analyzer passes views of the stored record "
-                             "(and thereby possibly the caller's array) in that position", f"{rel}:{getattr(sk.node, 'lineno', 0)}")
+                ctx.violated(rule, key, f"kernel writes its input parameter {bad[0]} in place ({sk.kind}: {sk.detail}); {why}", f"{rel}:{getattr(sk.node, 'lineno', 0)}")
             else:
-                ctx.holds(rule, key, "writes only its own buffers", repo.where(key, f3))
+                ctx.holds(rule, key, "does not write the record it is handed" if key in recpos else "writes only its own buffers" if key.endswith("_cuda_kernel") else
+                          "helper (its writes are accounted for in the summaries of the kernels that call it)", repo.where(key, f3))
     ctx.need("kernel / helper functions summarised for effects", k, 28)
     return E
 
